@@ -18,6 +18,7 @@ import (
 	"path/filepath"
 	"strconv"
 	"strings"
+	"time"
 
 	"github.com/antlr/antlr4/runtime/Go/antlr/v4"
 	parser "github.com/modernizing/coca/languages/java"
@@ -365,6 +366,12 @@ func abnormal(raw json.RawMessage, timeout bool, stderr string) interface{} {
 	var c Case
 	json.Unmarshal(raw, &c)
 	normalize(&c.Input)
+	// The case process died outside lib.Guard or ran into the time limit. On a crowded machine that can be
+	// the environment (fork failure, a starved process); a crash of the code under test is deterministic.
+	// So the case is run once more in another fresh process, and only a second failure is recorded.
+	if again, err := lib.Fresh(c); err == nil && json.Valid(again) && len(again) > 0 {
+		return again
+	}
 	o := emptyObs()
 	o.Panic = true
 	o.Cli.Ran = true
@@ -382,5 +389,5 @@ func abnormal(raw json.RawMessage, timeout bool, stderr string) interface{} {
 }
 
 func main() {
-	lib.Main(lib.Handler{One: one, Gen: gen, Abnormal: abnormal})
+	lib.Main(lib.Handler{One: one, Gen: gen, Abnormal: abnormal, CaseTimeout: 90 * time.Second})
 }
